@@ -87,6 +87,14 @@ def _json_mismatch(v, k):
 MUTATIONS = ["bad-default", "duplicate-name", "enum-default-outside", "bad-symbol", "dup-symbol", "missing-name", "bad-decimal", "undefined-ref"]
 
 
+def strip_hints(x):
+    if isinstance(x, dict):
+        return {k: strip_hints(v) for k, v in x.items() if k not in ("__fastavro_parsed", "__named_schemas")}
+    if isinstance(x, list):
+        return [strip_hints(v) for v in x]
+    return x
+
+
 class C11(Check):
     pid = "C11"
     level = "exploration"
@@ -360,6 +368,13 @@ class C11(Check):
             self._compare(parsed, node, table, js)
             if set(ns) != set(table):
                 raise Violation("named-schemas-keys", f"named_schemas keys {sorted(ns)} != full names {sorted(table)}; schema={js!r:.400}")
+            # the returned schema stands on its own: resolved independently (markers stripped) it defines the same full names
+            try:
+                _, back = M.resolve(strip_hints(copy.deepcopy(parsed)))
+            except Exception as e:  # noqa
+                raise Violation("parsed-output-not-a-schema", f"the independent resolver rejects parse_schema's output: {type(e).__name__}: {e}; schema={js!r:.400}")
+            if set(back) != set(table):
+                raise Violation("parsed-output-renames-types", f"parse_schema's output, read on its own, defines {sorted(back)} but the input defines {sorted(table)}; schema={js!r:.400}")
             # each name denotes the definition that carries it
             for full, truth in table.items():
                 got = ns[full]
